@@ -77,7 +77,7 @@ func isNumber(s string) bool {
 }
 
 func runC01(c *Ctx) {
-	n := c.N(1500, 40000)
+	n := c.N(6000, 40000)
 	cases := genBalCases(c, "conservation", n, func(r *RNG) JGenOpts {
 		o := JGenOpts{MaxAccounts: r.Range(2, 8), MaxDays: r.Range(1, 8), Unicode: true, BaseDay: 737000 + r.Intn(1500), SpanDays: Pick(r, []int{0, 5, 40, 100, 400, 800}), BoundaryDates: r.Chance(1, 8),
 			ManyDecimals: r.Chance(1, 3), Accruals: r.Chance(1, 3), DupPrices: true, CaseVariants: true}
